@@ -20,7 +20,8 @@ def run_profile(res, profile, n_per_job, jobs_per_fw, label, mc_cfg="MC_WampSess
             traces.append(t)
             meta.append(o["fw"])
     for t in traces:
-        res.distinct_key([(e["ev"], e.get("name"), (e.get("m") or {}).get("t"), e.get("beh"), e["re"]["exc"], len(e["re"]["done"])) for e in t])
+        res.distinct_key([(e["ev"], e.get("name"), (e.get("m") or {}).get("t"), e.get("beh"), e["re"]["exc"], len(e["re"]["done"])) if "re" in e
+                          else (e["ev"], str(e.get("base")), e.get("n")) for e in t])
     v = tlc.validate_traces("WampSessionTrace", "WampSessionTrace.cfg", traces, shards=8, timeout=3000)
     res.traces += v["n"]
     for k, c in v["coverage"].items():
@@ -30,13 +31,13 @@ def run_profile(res, profile, n_per_job, jobs_per_fw, label, mc_cfg="MC_WampSess
         e = t[l - 1] if l <= len(t) else None
         res.classify("%s-%s-trace-%d" % (label, meta[idx], idx),
                      dict(fw=meta[idx], events=[(x["ev"], x.get("name") or (x.get("m") or {}).get("t")) for x in t[:l]],
-                          rejected_event=e, state_before=t[l - 2]["obs"] if l >= 2 else None, rejected_at=l, spec="WampSessionTrace", trace=t))
+                          rejected_event=e, state_before=t[l - 2].get("obs") if l >= 2 else None, rejected_at=l, spec="WampSessionTrace", trace=t))
     if not v["rejected"]:
-        for a in ("TOpen", "TRx", "TLost", "TApi") + (("TResolve", "TProgress") if profile == "c10" else ()):
+        for a in ("TOpen", "TRx", "TLost", "TApi") + (("TResolve", "TProgress") if profile == "c10" else ()) + (("TIdWrap",) if profile == "c04" else ()):
             if res.actions.get("WampSessionTrace:" + a, 0) == 0:
                 raise common.MachineryError("vacuity: %s never taken" % a)
-    res.sample([dict(ev=e["ev"], name=e.get("name"), m=e.get("m"), re=e["re"]) for e in traces[0][:6]])
-    res.sample([dict(ev=e["ev"], name=e.get("name"), m=e.get("m"), exc=e["re"]["exc"]) for e in traces[-1]])
+    res.sample([dict(ev=e["ev"], name=e.get("name"), m=e.get("m"), re=e.get("re")) for e in traces[0][:6]])
+    res.sample([dict(ev=e["ev"], name=e.get("name"), m=e.get("m"), exc=(e.get("re") or {}).get("exc"), base=e.get("base"), wires=e.get("wires")) for e in traces[-1]])
     res.extra["rule"] = "one case = one seeded history (open, optional challenge/illegal messages, WELCOME, 4-16 API / router / endpoint steps, loss, one API call afterwards) on one framework"
     res.trusted = ["value comparison of payloads in the harness (faithful / valuesOk / argsOk flags)", "recording ITransport with a JSON serializer and a 2000 octet limit standing in for a real transport"]
     return traces
